@@ -16,6 +16,13 @@ RULE = ("ops: 'dec' = primitives of the decimal model (add/sub/mul/div/round) on
         "'scale' = (integer signal width 1..64 signed/unsigned, non-zero factor and offset with 1..12 significant digits, exponents "
         "-10..6 (one in ten: -40..-11 or 7..20), both signs, optional value table; raw value: every raw for widths <= 12 in thorough / <= 6 in quick, boundaries "
         "and random interior otherwise) observing raw2phys, phys2raw(raw2phys), named_value, default min/max, raw range; "
+        "Value tables (one in two sigdescs) have 1..5 keys of the raw range and, nine in twenty of them, 1..3 integer keys outside it, anywhere in "
+        "the table: the other reading of a bit pattern of the signal's width (raw + 2^size for a negative raw of a signed signal, raw - 2^size "
+        "for an upper-half raw of an unsigned one), the same low bits in a wider number (raw + j*2^size, j in -2..3), the sign-extended / all-ones "
+        "pattern of a byte, word, double-word container, keys just beyond the bounds, 2^size, 255, 65535, -1, -128; the raw value that shares "
+        "the low `size` bits with such a key and one of its neighbours are among the raw values of wide signals (all raw values anyway for widths "
+        "<= 6 / 12).  Keys are handed to add_values as int, hexadecimal text, decimal text or Decimal (three tables in ten), to the constructor as "
+        "int or decimal text.  A label whose key lies outside the raw range converts through Signal.phys2raw only (a payload cannot carry the key). "
         "Value tables include labels that differ in letter case or blanks only; another signal with the same labels on other keys converts first. 'label' = value-table label to raw key. "
         "Paths ('via'): the physical and the named value are read through Signal.raw2phys, through DecodedSignal.phys_value / named_value, through "
         "Frame.decode(bytes)[name] (frame with a second signal of another scaling) or through CanMatrix.decode(id, bytes)[name]; a label goes "
@@ -88,6 +95,45 @@ def rand_offset(rng):
     return [rng.random() < 0.5, rand_coeff(rng, 12), rng.randint(-10, 6)]
 
 
+KEY_FORMS = ["int", "int", "hex", "str", "dec"]
+
+
+def raw_bounds(size, signed):
+    return (-(1 << (size - 1)), (1 << (size - 1)) - 1) if signed else (0, (1 << size) - 1)
+
+
+def rand_foreign_key(rng, size, signed):
+    """an integer outside the raw range of the signal, as value tables carry them"""
+    lo, hi = raw_bounds(size, signed)
+    m = 1 << size
+    c = rng.random()
+    if c < 0.45:
+        # the other reading of a bit pattern of the same width
+        if signed:
+            k = rng.choice([-1, -2, lo, lo + 1, rng.randint(lo, -1)]) + m
+        else:
+            half = (hi + 1) // 2
+            k = rng.choice([hi, hi - 1, half, rng.randint(half, hi)]) - m
+    elif c < 0.65:
+        # the same low bits in a wider number
+        k = rng.choice([lo, hi, 0, 1, rng.randint(lo, hi)]) + rng.choice([-2, -1, 1, 2, 3]) * m
+    elif c < 0.8:
+        k = rng.choice([hi + 1, lo - 1, hi + 2, lo - 2])
+    elif c < 0.9:
+        # a negative raw value sign-extended / an all-ones pattern in a byte, word, double word container
+        w = rng.choice([w for w in (8, 16, 32, 64) if w > size] or [128])
+        k = rng.choice([(1 << w) - 1, (1 << w) - 2, (lo + (1 << w)) if signed else -(1 << (w - 1))])
+    else:
+        k = rng.choice([m, -m, 2 * m - 1, 255, 65535, -1, -128])
+    return k if not lo <= k <= hi else None
+
+
+def bit_twin(k, size, signed):
+    """the raw value of the range that has the same low `size` bits as the integer k"""
+    lo, _ = raw_bounds(size, signed)
+    return ((k - lo) % (1 << size)) + lo
+
+
 def rand_sigdesc(rng, width=None):
     size = width or rng.choice([1, 2, 3, 7, 8, 12, 16, 31, 32, 33, 63, 64, rng.randint(1, 64)])
     signed = rng.random() < 0.5
@@ -102,8 +148,21 @@ def rand_sigdesc(rng, width=None):
         # a description may be empty; descriptions that differ in letter case or in blanks are different descriptions
         labels = ["On", "Off", "Error", "SNA", "Init", "On", "", "0", "two words", "on", "ON", " On", "off",
                   "100%", "12.5 km/h", "Pass", "Warm", "1 A", "-3", "INV"]
+        # a value table is a mapping from integers to texts: it may list keys that no raw value of the range equals (the unsigned bit
+        # pattern of a negative raw value, the signed reading of a pattern of the upper half, the pattern in a wider container, keys
+        # just beyond the range).  Such a key labels nothing: the raw value that shares its bit pattern decodes to its own label or to
+        # the scaled number
+        if rng.random() < 0.45:
+            for _ in range(rng.randint(1, 3)):
+                k = rand_foreign_key(rng, size, signed)
+                if k is not None and k not in keys:
+                    keys.insert(rng.randint(0, len(keys)), k)
         values = [[k, rng.choice(labels)] for k in keys]
     sd = {"size": size, "signed": signed, "factor": rand_factor(rng), "offset": rand_offset(rng), "values": values}
+    # how a key is handed to the library (add_values takes an int, a decimal or hexadecimal text, a Decimal; the constructor's table
+    # int or decimal text); the table that results is the same
+    if values and rng.random() < 0.3:
+        sd["keyform"] = [rng.choice(KEY_FORMS) for _ in values]
     # what scaling has nothing to do with: the unit text and the comment of the signal.  A label may end with the unit text or be the unit text
     c = rng.random()
     if c < 0.3:
@@ -154,7 +213,12 @@ def raws_for(rng, sd, tier):
         out.add(rng.randint(lo, hi))
     for k, _ in sd["values"]:
         out.add(k)
-    return [r for r in out if lo <= r <= hi]
+        # a key outside the range: the raw values that share its bit pattern / lie next to it
+        t = bit_twin(k, size, signed)
+        out.add(t)
+        if t != k:
+            out.add(t + rng.choice([-1, 1]))
+    return sorted(r for r in out if lo <= r <= hi)
 
 
 # ---------------------------------------------------------------------------------------------
@@ -228,6 +292,16 @@ VIAS = ["signal", "signal", "decoded", "decoded", "frame", "matrix"]
 LABEL_VIAS = ["signal", "signal", "frame"]
 
 
+def label_via(rng, sd, lab):
+    """the path a label takes.  A payload holds raw values of the range only: a label whose key lies outside the range is converted by
+    Signal.phys2raw (which yields the key as it stands); what Frame.encode makes of such a key is not a conversion of a label to its key"""
+    via = rng.choice(LABEL_VIAS)
+    lo, hi = raw_bounds(sd["size"], sd["signed"])
+    if via == "frame" and any(v == lab and not lo <= k <= hi for k, v in sd["values"]):
+        return "signal"
+    return via
+
+
 def gen(rng, tier, shard, nshards):
     total = {"quick": 20000, "thorough": 400000}[tier] // nshards
     for _ in range(total // 2):
@@ -256,7 +330,7 @@ def gen(rng, tier, shard, nshards):
             yield {"op": "scale", "c": rand_env(rng, c)}
         if sd["values"]:
             for lab in sorted({v for _, v in sd["values"]} | {"NoSuchLabel"}):
-                c = {"sig": sd, "label": lab, "via": rng.choice(LABEL_VIAS)}
+                c = {"sig": sd, "label": lab, "via": label_via(rng, sd, lab)}
                 if with_hist:
                     c["hist"] = rand_hist(rng, sd)
                 yield {"op": "label", "c": rand_env(rng, c)}
@@ -304,6 +378,29 @@ def _dress_kw(sd):
     return kw
 
 
+def _key_as(k, form):
+    """the key in the notation the case names"""
+    if form == "hex":
+        return hex(k)
+    if form == "str":
+        return str(k)
+    if form == "dec":
+        return decimal.Decimal(k)
+    return k
+
+
+def _add_values(s, sd):
+    forms = sd.get("keyform") or []
+    for i, (k, v) in enumerate(sd["values"]):
+        s.add_values(_key_as(k, forms[i] if i < len(forms) else "int"), v)
+
+
+def _ctor_table(sd):
+    """the value table as a constructor argument: keys as int or as decimal text"""
+    forms = sd.get("keyform") or []
+    return {(str(k) if i < len(forms) and forms[i] in ("str", "hex") else k): v for i, (k, v) in enumerate(sd["values"])}
+
+
 def mksig(sd):
     if sd["size"] % 2:
         s = cm.Signal("s", size=sd["size"], is_signed=sd["signed"], factor=dec_of(sd["factor"]), offset=dec_of(sd["offset"]), **_dress_kw(sd))
@@ -314,8 +411,7 @@ def mksig(sd):
         s.set_min(None)
         s.set_max(None)
         _dress(s, sd)
-    for k, v in sd["values"]:
-        s.add_values(k, v)
+    _add_values(s, sd)
     return s
 
 
@@ -391,7 +487,7 @@ def build(sd, hist):
         kw["min"] = decimal.Decimal(0)
         kw["max"] = decimal.Decimal(1)
     if not prev and hist["tab"] == "ctor":
-        kw["values"] = {k: v for k, v in sd["values"]}
+        kw["values"] = _ctor_table(sd)
     if hist["ctor"] == "plain":
         # unit and comment are there from the start (otherwise they are assigned when the final state is reached)
         kw.update(_dress_kw(sd))
@@ -416,8 +512,7 @@ def build(sd, hist):
         for k in list(s.values):
             del s.values[k]
     if not (not prev and hist["tab"] == "ctor"):
-        for k, v in sd["values"]:
-            s.add_values(k, v)
+        _add_values(s, sd)
     return _uses(s, hist["uses"])
 
 
@@ -615,6 +710,19 @@ def features(case, impl):
             yield "label ends with the unit"
         if "comment" in sd:
             yield "signal has a comment"
+        lo, hi = raw_bounds(sd["size"], sd["signed"])
+        foreign = [k for k, _ in sd["values"] if not lo <= k <= hi]
+        if sd["values"]:
+            yield "value table: " + ("has keys outside the raw range" if foreign else "all keys in the raw range")
+        if "keyform" in sd:
+            yield "value-table keys handed over as: " + "+".join(sorted(set(sd["keyform"][:len(sd["values"])])))
+        if case["op"] == "scale" and foreign:
+            tw = [k for k in foreign if bit_twin(k, sd["size"], sd["signed"]) == c["raw"]]
+            if tw:
+                yield "raw value shares its bit pattern with a key outside the range, " + (
+                    "has a label of its own" if any(k == c["raw"] for k, _ in sd["values"]) else "has no label")
+        if case["op"] == "label" and any(v == c["label"] and not lo <= k <= hi for k, v in sd["values"]):
+            yield "label sits on a key outside the raw range"
         kinds = sorted({"float" if o["kind"] != "int" else "integer" for o in c.get("others", [])})
         yield "other signals used first: " + ("+".join(kinds) if kinds else "none")
         for o in c.get("others", []):
